@@ -360,13 +360,13 @@ def r03_8(run, model):
     run.floor("diagnostics-returning calls bound in the pipeline", n, 12)
 
 
-def r03_9(run, model):
+def r03_9(run, model, only=None, exclude=()):
     run.rule("R03.9", "substitution resolves completely: every function over Ty whose TVar arm reads the union-find (probe_value) applies "
                       "itself again to the value it finds (a variable bound to Vec[?1] is not left half-resolved)")
     UNI = "crates/compiler/src/typer/unify.rs"
     n = 0
     for f in model.fns(UNI):
-        if f.body is None:
+        if f.body is None or f.name in exclude or (only is not None and f.name not in only):
             continue
         for m in S.find(f.body, "Match"):
             for arm in m["arms"]:
@@ -381,7 +381,7 @@ def r03_9(run, model):
                 run.ob("R03.9", f"{f.qual}|bound variables are resolved recursively", rec, site(UNI, arm["sp"]),
                        f"the TVar arm of {f.name} {'re-applies ' + f.name + ' to' if rec else 'returns'} the probed value" + ("" if rec else " as it is"),
                        witness="let v = vec_new(); let w = vec_push(v, \"a\"): the type recorded for v stays Vec[TypeVar(0)] (hover shows it) although inference solved it to Vec[string]")
-    run.floor("TVar arms that read the union-find", n, 3)
+    run.floor("TVar arms that read the union-find", n, 1 if only is not None else 2)
 
 
 def r03_10(run, model):
@@ -455,6 +455,39 @@ def r03_11(run, model):
     run.floor("typer loops that visit child expressions", n, 8)
 
 
+def r03_12(run, model):
+    run.rule("R03.12", "a struct literal's positional elaboration follows the declaration: the expression recorded for declared position idx "
+                       "is read from a vector that was filled at the position looked up by field name (a local sized by the definition), "
+                       "never from the literal's own field list indexed by idx (source order)")
+    CHECK = "crates/compiler/src/typer/check.rs"
+    f = model.fn("infer_struct_literal_expr", CHECK, impl="Typer")
+    params = {p["pat"].get("name") for p in f.params() if not p["self"]}
+    sized = set()
+    for l in S.find(f.body, "Local"):
+        if l["pat"]["k"] == "PIdent" and l.get("init") is not None and l["init"]["k"] == "Macro" and l["init"]["name"] == "vec" and \
+                re.search(r"\.len\(\)", l["init"].get("tokens", "")):
+            sized.add(l["pat"]["name"])
+    pushes = [c for c in S.walk(f.body) if c["k"] == "MethodCall" and c["method"] == "push" and
+              any(x["k"] == "Call" and (S.callee_name(x) == "Expr") and "StructLitArgElab" in (x["func"].get("segs") or []) for x in S.walk(c))]
+    if not pushes:
+        raise AnalysisIncomplete("infer_struct_literal_expr: StructLitArgElab::Expr push not found")
+    par = S.Parents(f.body)
+    for c in pushes:
+        # the pushed id: bound by an enclosing `if let Some(v) = <recv>.get(idx)…`
+        src = None
+        for a in par.ancestors(c):
+            if a["k"] == "If" and a["cond"]["k"] == "Let" and S.span_contains(a["then"]["sp"], c["sp"]):
+                gets = [g for g in S.walk(a["cond"]) if g["k"] == "MethodCall" and g["method"] in ("get", "get_mut") and g["recv"]["k"] == "Path"]
+                idxs = [g for g in S.walk(a["cond"]) if g["k"] == "Index" and g.get("base", g.get("expr", {})).get("k") == "Path"]
+                if gets:
+                    src = gets[0]["recv"]["segs"][0]
+                break
+        ok = src in sized and src not in params
+        run.ob("R03.12", "infer_struct_literal_expr|elaborated arguments come from the declaration-ordered vector", ok, site(CHECK, c["sp"]),
+               f"StructLitArgElab::Expr is read from `{src}`" + (" (a vector sized by the definition and filled by field name)" if ok else " (not a declaration-ordered vector)") + f"; declaration-sized locals: {sorted(sized)}",
+               witness="struct Account { id: int32, owner: string, active: bool }: Account { owner: \"ann\", active: true, id: 7 } becomes Account(\"ann\", true, 7) in every IR")
+
+
 def strip_callee(c):
     return re.sub(r"<[^<>]*>", "", c).split("::")[-1]
 
@@ -466,13 +499,16 @@ def run(run, model):
     run.try_rule(r03_4, model)
     run.try_rule(r03_5, model)
     run.try_rule(r03_8, model)
-    run.try_rule(r03_9, model)
+    run.try_rule(r03_9, model, None, ("subst_ty_silent",))
     run.try_rule(r03_10, model)
     run.try_rule(r03_11, model)
+    run.try_rule(r03_12, model)
     run.try_rule(c07.r07_4, model)
-    run.try_rule(c07.r07_2, model)
+    run.try_rule(c07.r07_2, model, None, "C03")
     from rules import c08
     run.try_rule(c08.r08_1, model)
+    run.try_rule(c08.r08_2, model)
+    run.try_rule(c08.r08_3, model)
     from rules import c06
     for fn_ in (c06.r06_4,):
         run.try_rule(fn_, model)
